@@ -15,6 +15,11 @@ CERT_PROCS = int(os.environ.get("VERIF_CERT_PROCS", "8"))      # coqc processes 
 # point / pole): there the code follows the sign of its computed zero, which the property does not constrain
 # and which a model over R (no signed zero) cannot express.  Those points are not compared with the model or
 # with mpmath; range, round-trip and reciprocal identities are still checked there.
+# arg, sqrt, ln, pow, powf and log take their argument's imaginary part as it is given: every generated point
+# on the negative real axis carries the zero of positive sign, where f64::atan2 is PI, the model's [atan2] is
+# PI and the principal value (Im ln z in (-pi, pi]) is the closed end of the range.  They are therefore compared
+# there as anywhere else; only z = 0 (no value) is excluded for them.  The composite inverse functions reach
+# their cuts through a computed zero whose sign is a rounding accident, so their cut lines stay excluded.
 def _neg_real(x, y): return y == 0 and x <= 0
 def _real_ge1(x, y): return y == 0 and abs(x) >= 1
 def _imag_ge1(x, y): return x == 0 and abs(y) >= 1
@@ -24,15 +29,15 @@ def _never(x, y): return False
 def _zero(x, y): return x == 0 and y == 0
 
 CUTS = {
-    "abs": _never, "abs_sqr": _never, "conj": _never, "arg": _neg_real,
-    "sqrt": _neg_real, "ln": _neg_real, "exp": _never,
+    "abs": _never, "abs_sqr": _never, "conj": _never, "arg": _zero,
+    "sqrt": _zero, "ln": _zero, "exp": _never,
     "sin": _never, "cos": _never, "tan": _never, "sec": _never, "csc": _zero, "cot": _zero,
     "sinh": _never, "cosh": _never, "tanh": _never, "sech": _never, "csch": _zero, "coth": _zero,
     "asin": _real_ge1, "acos": _real_ge1, "atan": _imag_ge1,
     "asec": _real_le1, "acsc": _real_le1, "acot": _imag_le1,
     "asinh": _imag_ge1, "acosh": lambda x, y: y == 0 and x <= 1, "atanh": _real_ge1,
     "asech": lambda x, y: y == 0 and (x <= 0 or x >= 1), "acsch": _imag_le1, "acoth": _real_le1,
-    "pow": _neg_real, "powf": _neg_real, "log": _neg_real,
+    "pow": _zero, "powf": _zero, "log": _zero,
 }
 
 # the axis that carries the cuts of each function ('' = no cut)
